@@ -201,6 +201,13 @@ class LScenario:
     #                       loop); -1 = None.  `ra == 2` or a timeout = model M1LU (`drv_m1lu`)
     ctl: tuple = ()       # M1LU: scripted picks of `next(iter(self._jobs_set))` (value v -> element v % len in insertion
     #                       order, last value repeats, () = always the oldest)
+    fine_from: int = -1   # failing-input search (oracle only, no model): the first `fine_from` steps are forced by `sched` at
+    #                       the models' granularity; from then on EVERY lock operation (also the re-entrant ones) and every
+    #                       access to a shared attribute (also by the lock owner) is a scheduling point and the policy
+    #                       `park` decides.  -1 = a normal scenario
+    park: tuple = ()      # (tid, k, base): thread `tid` is frozen after its k-th step of the fine phase while the others run
+    #                       to their end (base 0: last enabled first = drain; 1: first enabled first); it resumes when nobody
+    #                       else can move (or the caller only polls)
 
     def tokens(self):
         t = [self.nj, int(self.bs_auto), len(self.bs), *self.bs, self.pd_mode, self.pd, self.ra, int(self.abort_drops),
@@ -247,10 +254,11 @@ class LScenario:
         return dict(nj=self.nj, bs_auto=self.bs_auto, bs=list(self.bs), pd_mode=self.pd_mode, pd=self.pd,
                     pd_expr=self.pd_expr, ra=self.ra, abort_drops=self.abort_drops, recheck=self.recheck,
                     calls=[[n, list(f), i] for (n, f, i) in self.calls], sched=list(self.sched),
-                    seq_callbacks=self.seq_callbacks, guard=self.guard, timeout=self.timeout, ctl=list(self.ctl))
+                    seq_callbacks=self.seq_callbacks, guard=self.guard, timeout=self.timeout, ctl=list(self.ctl),
+                    fine_from=self.fine_from, park=list(self.park))
 
     def oracle_only(self):
-        return not self.calls or ((self.ra == 2 or self.timeout >= 0) and not self.use_u())
+        return not self.calls or self.fine_from >= 0 or ((self.ra == 2 or self.timeout >= 0) and not self.use_u())
 
     @staticmethod
     def from_json(d):
@@ -259,7 +267,8 @@ class LScenario:
                          calls=tuple((c[0], tuple(c[1]), c[2]) for c in d["calls"]), sched=tuple(d["sched"]),
                          seq_callbacks=bool(d.get("seq_callbacks", False)),
                          guard=bool(d["guard"]) if "guard" in d else guard_default(),
-                         timeout=int(d.get("timeout", -1)), ctl=tuple(d.get("ctl", ())))
+                         timeout=int(d.get("timeout", -1)), ctl=tuple(d.get("ctl", ())),
+                         fine_from=int(d.get("fine_from", -1)), park=tuple(d.get("park", ())))
 
 
 # ---------------------------------------------------------------- the scheduler
@@ -302,6 +311,7 @@ class Sched:
         self.lock_depth = 0
         self.abandoned = False
         self.cur = None             # the _T that is running now (None: the controller)
+        self.fine = False           # failing-input search: re-entrant lock operations and accesses by the lock owner park too
 
     def me(self):
         return self.by_ident.get(threading.get_ident())
@@ -385,6 +395,8 @@ class SchedLock:
             return True
         if s.lock_owner == t.tid:
             s.lock_depth += 1
+            if s.fine:
+                s.yield_point("acq+")
             return True
         s.yield_point("acq")
         assert s.lock_owner is None, "scheduler let a thread through a held lock"
@@ -402,6 +414,8 @@ class SchedLock:
         if s.lock_depth == 0:
             s.lock_owner = None
             s.yield_point("rel")
+        elif s.fine:
+            s.yield_point("rel+")
 
     __enter__ = acquire
 
@@ -534,6 +548,10 @@ class LRun:
         self.pull_after_abort = []
         self.chooser = None      # optional adaptive policy (acts, run) -> index, instead of `sc.sched` (probes only)
         self.ctl_i = 0           # M1LU: number of iterations over `_jobs_set` so far (index into `sc.ctl`)
+        self.step_of_log = []    # step number that produced each entry of `log`
+        self.tsteps = {}         # fine phase: steps taken by each thread
+        self.released = False    # fine phase: the parked thread runs freely again
+        self.idle_polls = 0      # fine phase: consecutive caller steps that ended in `sleep` with nobody else moving
         self.reg_order = []      # batches (task ids) in the order in which their callbacks entered the registration
 
     # --- instrumentation callbacks
@@ -543,6 +561,8 @@ class LRun:
         if t is None:
             return
         if s.lock_owner == t.tid:
+            if s.fine:
+                s.yield_point("L" + rw + ":" + name)
             return
         s.yield_point(rw + ":" + name)
 
@@ -695,6 +715,7 @@ class LRun:
                         base += n
 
                 self._loop(caller)
+                self.step_of_log += [self.steps] * (len(self.log) - len(self.step_of_log))
         finally:
             _CURRENT[0] = None
             sys.setswitchinterval(saved_si)
@@ -723,6 +744,22 @@ class LRun:
             acts.append(("c", k))
         return acts
 
+    def _park_choice(self, acts):
+        """Fine phase of a failing-input search run: thread `park[0]` is frozen once it has taken `park[1]` steps of this
+        phase, the other threads and the backend run on (base 0: last enabled action first, i.e. completions, then
+        callbacks, then the caller; base 1: first enabled first); the frozen thread resumes -- for good -- when nobody
+        else can move or when the caller has only been polling (3 x `sleep` in a row with nobody else moving)."""
+        tid, k, base = (tuple(self.sc.park) + (0, 0, 0))[:3] if self.sc.park else (-1, 0, 0)
+        if tid < 0 or self.released:
+            cand = list(range(len(acts)))
+        else:
+            frozen = self.tsteps.get(tid, 0) >= k
+            cand = [i for i, a in enumerate(acts) if not (frozen and a == ("t", tid))]
+            if not cand or (frozen and self.idle_polls >= 3 and ("t", tid) in acts):
+                self.released = True
+                cand = [i for i, a in enumerate(acts) if a == ("t", tid)] or list(range(len(acts)))
+        return cand[0] if base == 1 else cand[-1]
+
     def _loop(self, caller):
         s = self.sched
         sc = self.sc
@@ -733,6 +770,7 @@ class LRun:
         self.log.append(f"0:{';'.join(t0.events)}>{t0.point}")
         t0.events = []
         while True:
+            self.step_of_log += [self.steps] * (len(self.log) - len(self.step_of_log))
             acts = self._enabled()
             if not acts:
                 if any(t.point != "done" for t in s.threads.values()):
@@ -745,8 +783,15 @@ class LRun:
                 self.log.append("hang")
                 break
             self.steps += 1
+            fine_phase = sc.fine_from >= 0 and self.steps > sc.fine_from
+            if fine_phase:
+                s.fine = True
             if self.chooser is not None:
                 kind, x = acts[self.chooser(acts, self)]
+            elif fine_phase:
+                kind, x = acts[self._park_choice(acts)]
+                if kind == "t":
+                    self.tsteps[x] = self.tsteps.get(x, 0) + 1
             elif self.choice_i < len(sc.sched):
                 c = sc.sched[self.choice_i]
                 self.choice_i += 1
@@ -760,7 +805,14 @@ class LRun:
                     self.log.append("stuck")
                     break
                 self.log.append(f"{x}:{';'.join(t.events)}>{t.point}")
+                if fine_phase:
+                    # the caller only polls (`sleep` again and nobody else moved): the parked thread has to go on
+                    if x == 0 and t.point == "sleep":
+                        self.idle_polls += 1
+                    elif x != 0:
+                        self.idle_polls = 0
             else:
+                self.idle_polls = 0
                 func, cb, ids, bno = self.parked.pop(x)
                 try:
                     out = func()
@@ -787,6 +839,10 @@ class LRun:
                     self.log.append("stuck")
                     break
                 self.log.append(f"{1 + bno}:{';'.join(t.events)}>{t.point}")
+
+
+def _park_choice_doc():
+    """(see LRun._park_choice)"""
 
 
 def _exc_name(e):
@@ -1136,13 +1192,16 @@ class _Slim:
         self.cb_errors = r.cb_errors
         self.reg_order = r.reg_order
         self.n_sleep = r.n_sleep
+        self.step_of_log = r.step_of_log
+        self.tsteps = r.tsteps
 
 
 def _slim_to_json(r):
     return dict(log=r.log, status=r.status, outcomes=[list(o) for o in r.outcomes], steps=r.steps,
                 exec_count=[[k, v] for k, v in r.exec_count.items()], reentered=r.reentered,
                 pull_not_owner=[list(x) for x in r.pull_not_owner], pull_after_abort=list(r.pull_after_abort),
-                cb_errors=[list(x) for x in r.cb_errors], reg_order=r.reg_order, n_sleep=r.n_sleep)
+                cb_errors=[list(x) for x in r.cb_errors], reg_order=r.reg_order, n_sleep=r.n_sleep,
+                step_of_log=r.step_of_log, tsteps=[[k, v] for k, v in r.tsteps.items()])
 
 
 class _FromJson:
@@ -1159,6 +1218,8 @@ class _FromJson:
         self.cb_errors = [tuple(x) for x in d["cb_errors"]]
         self.reg_order = d.get("reg_order", [])
         self.n_sleep = d.get("n_sleep", 0)
+        self.step_of_log = d.get("step_of_log", [])
+        self.tsteps = {k: v for k, v in d.get("tsteps", [])}
 
 
 def _worker_main():
